@@ -5,6 +5,7 @@ mod ser;
 mod util;
 mod other;
 mod cli;
+mod shapes;
 
 use gens::*;
 use std::collections::{BTreeMap, HashSet};
@@ -361,6 +362,10 @@ fn run_printer(prop: &str, tier: &str, seed: u64, outdir: &str, only: Option<(&'
                     if st.samples.len() < 2 && nontrivial(prop, &src) && src.len() < 300 {
                         st.samples.push(format!("{}:{} tab={} width={} :: {}", c.gen, c.idx, cfg.tab, cfg.width, src));
                     }
+                    let xshape = shapes::excluded(source.root(), prop);
+                    if let Some(id) = xshape {
+                        *st.features.entry(format!("excluded-shape:{}", id)).or_default() += 1;
+                    }
                     // --- implementation run at the case's configuration
                     let ob = match observe(&source, cfg) {
                         Ok(o) => o,
@@ -375,6 +380,9 @@ fn run_printer(prop: &str, tier: &str, seed: u64, outdir: &str, only: Option<(&'
                     // --- oracle at the case's width and a sweep
                     let mut failed = false;
                     for wd in widths_for(cfg, tier, src.len()) {
+                        if xshape.is_some() {
+                            break;
+                        }
                         let cfgw = Cfg { width: wd, ..cfg };
                         let (out, count) = if wd == cfg.width {
                             (ob.out.clone(), ob.count)
@@ -408,6 +416,9 @@ fn run_printer(prop: &str, tier: &str, seed: u64, outdir: &str, only: Option<(&'
                         ser::ser_tree(source.root(), &mut t);
                         writeln!(w, "CASE {} {}", c.gen, c.idx).unwrap();
                         writeln!(w, "CFG {} {} {} {}", cfg.tab, cfg.width, cfg.blank, if cfg.reorder { 1 } else { 0 }).unwrap();
+                        if let Some(id) = xshape {
+                            writeln!(w, "XSHAPE {}", id).unwrap();
+                        }
                         writeln!(w, "TREE {}", t).unwrap();
                         writeln!(w, "COUNT {}", ob.count).unwrap();
                         writeln!(w, "OUT {}", hexs(&ob.out)).unwrap();
